@@ -13,9 +13,29 @@ from . import gen_prog as GP
 from . import semapipe as SP
 
 
+DEGENERATE = [
+    # every construct in its emptiest / most minimal accepted spelling (empty text after a keyword, empty lists,
+    # empty bodies, width 0/1, units and suffixes glued to every numeric spelling)
+    "pragma\n", "#pragma\n", "pragma \n", "pragma x\n", "#pragma x\n", "@a\nqubit q;\n", "@a \nqubit q;\n", "@a b\nqubit q;\n",
+    "qubit q; barrier q;", "qubit q; reset q;", "qubit q; measure q;", "gate g q { }", "gate g(a) q { }", "def f() { }", "def f() -> int { return 1; }",
+    "{ }", "if (true) { }", "if (true) { } else { }", "while (false) { }", "for int i in [0:0] { }", "for int i in {1} { }",
+    "switch (1) { case 1 { } }", "switch (1) { default { } }", "switch (1) { case 1, 2 { } default { } }",
+    "bit[1] b;", "qubit[1] q;", "int[1] x;", "uint[1] u;", "float[32] f;", "angle[1] a;", "complex[float[32]] c;", "array[int[8], 1] a;",
+    "qubit q; U(0, 0, 0) q;", "qubit q; gphase(0);", "qubit q; ctrl @ U(0,0,0) q, q;", "qubit $0;", "qubit q; delay[0ns] q;",
+    "end;", "break;", "continue;", ";", "let a = b;", "input int i;", "output bit o;", "const int n = 0;", "bit b = \"\";", "bit b = \"0\";",
+    "duration d = .5ns;", "duration d = 5.ns;", "duration d = 1e3ns;", "duration d = .5e1us;", "duration d = 0dt;", "duration d = 1.5e-3 ms;",
+    "complex z = .25im;", "complex z = 5.im;", "complex z = 1e2im;", "complex z = 0im;", "float f = .5;", "float f = 5.;", "float f = 0e0;",
+    "float f = 1_0.0_1;", "int x = 0_0;", "int x = 0b0;", "int x = 0B1;", "int x = 0o0;", "int x = 0x0;", "int x = 0XfF;", "bit[2] b = '01';",
+    "bit[4] b = \"0_1_0_1\";", "duration d = 10µs;", "duration d = 10 µs;", "qubit q; delay[2µs] q;", "stretch s;", "bool b = true;", "bool b = false;",
+    "include \"stdgates.inc\";", "include \"stdgates.inc\";\ninclude \"stdgates.inc\";", "OPENQASM 3;\nqubit q;", "OPENQASM 3.0;\nqubit q;",
+    "creg c[1];", "qreg q[1];", "creg c;", "qreg q;", "extern f(int) -> int;", "defcal g q { }", "cal { }", "box { }", "defcalgrammar \"openpulse\";",
+]
+
+
 def default_programs(ctx, extra=()):
     q = ctx.tier == "quick"
     progs = [G.dec(l) for l in C.load_corpus("sema")]
+    progs += DEGENERATE + [a + "\n" + b for a in DEGENERATE[:20] for b in DEGENERATE[:20]]
     progs += list(extra)
     progs += GP.gen_programs(ctx.seed, 5000 if q else 80000)
     return progs
@@ -61,7 +81,7 @@ def run(ctx, pid, prop_mods, oracles, progs, rule, trusted=(), assumptions=(), p
                 per_check[chk] = per_check.get(chk, 0) + 1
                 failures.append({"case": G.enc(r["text"]), "check": chk,
                                  "detail": {"text": r["text"], "what": str(detail)[:400], "impl": r["impl"][:300]},
-                                 "guards": guards, "model_agrees": r["agree"] is not False,
+                                 "guards": guards, "model_agrees": r["agree"] is True,   # not run / BAD-AST counts as NOT agreeing
                                  "replay_how": "echo '<input>' | /verif/harness/target/debug/oq3-run sema   (and `ast`); oracle: vf/%s.py" % orc.__name__.split(".")[-1]})
         if clean and r["impl"].startswith("asg="):
             nontriv += 1
